@@ -10,6 +10,7 @@ struct Supply {
   std::vector<std::string> corpus;
   double corpus_share = 0.3;
   bool allow_flex = false;
+  bool vary_options = false;
   void init() { corpus = mg::load_corpus(); }
   // returns a compiled model or nullptr (skip); fills desc / blob
   mjModel* get(Rng& r, const mg::GenOpts& o, std::string* desc, bool* from_corpus = nullptr, int max_nq = 300) {
@@ -24,6 +25,21 @@ struct Supply {
       if (!m) { nd::count("model_skipped_load_failure"); return nullptr; }
       if (m->nq > max_nq || (m->nflex && !allow_flex) || m->nplugin) { nd::count("model_skipped_size_or_flex"); mj_deleteModel(m); return nullptr; }
       nd::count("models_corpus");
+      if (vary_options && r.chance(0.6)) {
+        // repo models mostly use default options: vary the run-time options so that their features (flex, tendons, equality
+        // types, actuator kinds ...) also meet the other solvers / integrators / cones (decided by the case's own PRNG)
+        static const char* sn[] = {"PGS", "CG", "Newton"}; static const char* in[] = {"Euler", "RK4", "implicit", "implicitfast"};
+        bool sleep = (m->opt.enableflags & mjENBL_SLEEP) != 0;
+        int so = r.below(3), ig = r.below(4), co = r.below(2);
+        if (ig == 1 && sleep) ig = 0;                       // RK4 + sleep is documented unsupported
+        m->opt.solver = so; m->opt.integrator = ig; m->opt.cone = co;
+        if (r.chance(0.2) && !sleep) m->opt.disableflags |= mjDSBL_ISLAND;   // (sleeping needs islands)
+        if (r.chance(0.2)) m->opt.disableflags |= mjDSBL_WARMSTART;
+        if (r.chance(0.15)) m->opt.noslip_iterations = r.range(1, 3);
+        if (r.chance(0.2)) m->opt.jacobian = r.below(3);
+        *desc += std::string("[opt ") + sn[so] + "/" + in[ig] + "/" + (co ? "elliptic" : "pyramidal") + "]";
+        nd::count("models_corpus_with_varied_options");
+      }
       return m;
     }
     mg::Model gm = mg::generate(r, o, nd::g_args.mdrop);
@@ -94,7 +110,9 @@ inline std::set<std::string> conditional_fields(const mjModel* m, bool inverse_c
   std::set<std::string> ex = scratch_fields(m);
   for (const char* s : {"bvh_active", "subtree_linvel", "subtree_angmom", "cacc", "cfrc_int", "cfrc_ext",   // lazily evaluated
                         "qH", "qHDiagInv", "qDeriv", "qLU",                                              // integrator scratch (which one is used depends on the integrator)
-                        "wrap_obj", "wrap_xpos", "actuator_moment", "moment_colind"})                    // written up to a count only
+                        "wrap_obj", "wrap_xpos", "actuator_moment", "moment_colind",                      // written up to a count only
+                        "flexedge_length", "flexvert_length",                                             // computed only for flexes whose edges / vertex constraints can generate forces (mj_flex skips rigid and interpolated flexes)
+                        "flexelem_krot"})                                                                // cache of the implicit effective metric: written only when that metric is active (mjd_effBuild), read only then
     ex.insert(s);
   if (!inverse_called) ex.insert("qfrc_inverse");
   ex.insert("warning.number");   // cumulative statistics of the instance's own history, not an output of the call
